@@ -280,7 +280,7 @@ class World:
         self.apphost = helper
         self.wsgi_app = helper.app
         W.EvThreadWorker._w3 = W.W3State()
-        self.worker_class = {"sync": W.EvSyncWorker, "gthread": W.EvThreadWorker}[kind]
+        self.worker_class = W.gevent_worker_class() if kind == "gevent" else {"sync": W.EvSyncWorker, "gthread": W.EvThreadWorker}[kind]
         return helper
 
     def script_for(self, age):
@@ -330,6 +330,18 @@ class World:
             shared += [w.cfg, w.app, w.log]
         for o in shared:
             memo[id(o)] = o
+        # BaseSocket delegates unknown attributes (incl. __deepcopy__) to its socket object: copy listeners by hand
+        from gunicorn.sock import BaseSocket
+        lsts = list(arb.LISTENERS)
+        for w in list(arb.WORKERS.values()) + ([worker] if worker is not None else []):
+            lsts += [x for x in getattr(w, "sockets", []) if isinstance(x, BaseSocket)]
+        for l in lsts:
+            if id(l) not in memo:
+                c = object.__new__(type(l))
+                c.__dict__.update(l.__dict__)
+                if l.sock is not None:
+                    c.sock = copy.deepcopy(l.sock)
+                memo[id(l)] = c
         clone, cworker = copy.deepcopy((arb, worker), memo)
         self.masters[child.pid] = clone
         self.forks.append((self.sim.now, parent.pid, child.pid, mode))
